@@ -38,6 +38,8 @@ type Property struct {
 	// Post runs in the coordinator after the workers (e.g. race pass); it may
 	// add counters and violations.
 	Post func(tier string, m *Merged)
+	// WorkerProcs sets GOMAXPROCS of the worker processes (default 2).
+	WorkerProcs int
 	// MinRefOutcomes: vacuity threshold on reference-side outcome classes.
 	MinRefOutcomes int
 }
@@ -172,7 +174,15 @@ func RunWorker(p *Property, tier string, shard, nshards int, deadline time.Time,
 				break
 			}
 			os.WriteFile(cur, []byte(sp.Name+" "+strconv.Itoa(i)), 0o644)
+			t0 := time.Now()
 			sp.Run(i, w)
+			if d := time.Since(t0); os.Getenv("VERIF_TIMING") != "" && d > 2*time.Second {
+				lbl := ""
+				if sp.Label != nil {
+					lbl = sp.Label(i)
+				}
+				fmt.Fprintf(os.Stderr, "TIMING %s #%d %.1fs %s\n", sp.Name, i, d.Seconds(), lbl)
+			}
 			w.Done[sp.Name]++
 		}
 	}
@@ -318,7 +328,11 @@ func Check(id, tier string) int {
 			strconv.FormatInt(deadline.UnixNano(), 10), out)
 		cmd.Stderr = os.Stderr
 		cmd.Stdout = os.Stderr
-		cmd.Env = append(os.Environ(), "GOMAXPROCS=2")
+		nprocs := "2"
+		if p.WorkerProcs > 0 {
+			nprocs = strconv.Itoa(p.WorkerProcs)
+		}
+		cmd.Env = append(os.Environ(), "GOMAXPROCS="+nprocs)
 		procs[s] = &proc{cmd: cmd, out: out}
 		if err := cmd.Start(); err != nil {
 			fmt.Fprintln(os.Stderr, err)
